@@ -42,6 +42,8 @@ def run_one(mod, prop, tier, seed, index, verbose=False):
     finally:
         signal.setitimer(signal.ITIMER_REAL, 0)
     rec = case.record()
+    if index >= 48 and not rec["violations"]:
+        rec["sample"] = None          # samples of the first cases are enough for the evidence file
     rec["wall_s"] = round(time.time() - t0, 4)
     return rec
 
